@@ -346,7 +346,7 @@ Section Pass.
       + exists (ow ++ [length pos]), (pos ++ [k]).
         apply (push_inv k (b, seen) ow pos seen H Hk); cbn [snd]; auto.
         intros _. right. exists owner, p0. auto.
-    - rewrite B1. rewrite (items_len _ _ _ _ H0). cbn [fst].
+    - rewrite B1. pose proof (items_len _ _ _ _ H0) as HL. cbn [fst] in HL. rewrite HL.
       exists (ow ++ [length pos]), (pos ++ [k]).
       replace (nb_push b (nth k all dflt_psend)) with (nb_push (fst (b, seen)) (nth k all dflt_psend)) by reflexivity.
       apply (push_inv k (b, seen) ow pos _ H Hk); cbn [snd].
